@@ -1,3 +1,6 @@
+//! COPY of /verif/harness/cluster/src/sim.rs (cluster engine's step-mode simulated cluster), taken for the C13
+//! Raft-command-path check; the only additions are the `read_default` / `allow_override` fields of ClusterCfg.
+#![allow(dead_code)]
 //! Step-mode simulated cluster: real `Raft<SimTc>` nodes stepped by schedule labels.
 use std::collections::BTreeMap;
 use std::sync::Arc;
@@ -33,6 +36,9 @@ pub struct ClusterCfg {
     pub snap_threshold: u64,
     pub retained: u64,
     pub general_timeout_ms: u64,
+    /// funcs/C13: server default read policy ("lin" | "lease" | "ev") and allow_client_override
+    pub read_default: String,
+    pub allow_override: bool,
 }
 
 impl ClusterCfg {
@@ -48,6 +54,8 @@ impl ClusterCfg {
             snap_threshold: 1000,
             retained: 1,
             general_timeout_ms: 5000,
+            read_default: "lin".into(),
+            allow_override: true,
         }
     }
     pub fn from_json(v: &Value) -> Self {
@@ -73,6 +81,12 @@ impl ClusterCfg {
         }
         if let Some(x) = v.get("general_timeout_ms").and_then(|x| x.as_u64()) {
             c.general_timeout_ms = x;
+        }
+        if let Some(x) = v.get("read_default").and_then(|x| x.as_str()) {
+            c.read_default = x.to_string();
+        }
+        if let Some(x) = v.get("allow_override").and_then(|x| x.as_bool()) {
+            c.allow_override = x;
         }
         // "initial": {"1": [[1,"F","A"]], "2": [[1,"F","A"],[2,"Ln","P"]] ...}
         if let Some(init) = v.get("initial").and_then(|x| x.as_object()) {
@@ -216,6 +230,12 @@ fn node_config(
     cfg.raft.read_consistency.lease_duration_ms = c.lease_ms;
     cfg.raft.learner_check_throttle_ms = 0;
     cfg.raft.general_raft_timeout_duration_in_ms = c.general_timeout_ms;
+    cfg.raft.read_consistency.default_policy = match c.read_default.as_str() {
+        "lease" => ReadConsistencyPolicy::LeaseRead,
+        "ev" => ReadConsistencyPolicy::EventualConsistency,
+        _ => ReadConsistencyPolicy::LinearizableRead,
+    };
+    cfg.raft.read_consistency.allow_client_override = c.allow_override;
     cfg
 }
 
